@@ -969,3 +969,67 @@ func isGenericOrigin(fn *ssa.Function) bool {
 	}
 	return fn.Signature != nil && fn.Signature.RecvTypeParams().Len() > 0
 }
+
+// errDisciplineRule: in the given functions no error handed back by the repository's own functions or by the
+// bufiox reader/writer interfaces is dropped: it is tested, returned, stored or handed on. (The tree as pinned has two
+// deliberate exceptions, both outside what the properties speak about: NocopyWriter.WriteDirect, whose contract is
+// outside the repository, and Release of a reader over a byte slice.)
+func errDisciplineRule(P *Program, r *Result, rule string, fns []*ssa.Function) {
+	exempt := map[string]string{
+		"WriteDirect": "the direct writer's contract is outside the repository (C15 fixes what it is told)",
+		"Release":     "releasing a reader has no effect on what was decoded; its error is the stored source error already seen",
+	}
+	n := 0
+	for _, fn := range fns {
+		if fn == nil || fn.Blocks == nil {
+			continue
+		}
+		for _, c := range callsIn(fn) {
+			cc, ok := c.(*ssa.Call)
+			if !ok {
+				continue
+			}
+			com := cc.Common()
+			if _, isB := com.Value.(*ssa.Builtin); isB {
+				continue
+			}
+			sig := com.Signature()
+			if sig == nil || sig.Results().Len() == 0 || !isErrorType(sig.Results().At(sig.Results().Len()-1).Type()) {
+				continue
+			}
+			name := ""
+			mine := false
+			if com.IsInvoke() {
+				name = com.Method.Name()
+				if pk := com.Method.Pkg(); pk != nil && strings.HasPrefix(pk.Path(), modPath) {
+					mine = true
+				}
+			} else if cal := com.StaticCallee(); cal != nil {
+				name = cal.Name()
+				mine = inRepo(cal)
+			}
+			if !mine || exempt[name] != "" {
+				continue
+			}
+			n++
+			ev := resultValue(cc, sig.Results().Len()-1)
+			if sig.Results().Len() == 1 {
+				ev = cc
+			}
+			used := ev != nil && errExamined(ev, map[ssa.Value]bool{})
+			r.add(rule, shortName(fn), "err", "the error handed back by "+name+" is not dropped", P.pos(instrPos(cc)), used, "")
+		}
+	}
+	r.Extra["error_results_followed"] = n
+}
+
+// pkgFuncs: the non-test functions (and methods) of one repository package, instances of generics included.
+func pkgFuncs(P *Program, rel string) []*ssa.Function {
+	var out []*ssa.Function
+	for _, fn := range repoFuncs(P) {
+		if fnPkgPath(fn) == modPath+"/"+rel && !isGenericOrigin(fn) && fn.Synthetic == "" {
+			out = append(out, fn)
+		}
+	}
+	return out
+}
